@@ -145,6 +145,20 @@ def run(ctx):
                 for sysc in ("read", "pread64", "write", "pwrite64"):
                     for when in range(1, (10 if quick else 40) + 1):
                         jobs.append((drv, 2, sysc, ["EIO", "ENOSPC"][when % 2] if "write" in sysc else "EIO", when, "VAR:USPACE"))
+    # --glob sources: the expansion of the patterns is a step too (a directory matched by a wildcard component that cannot be listed
+    # must not just contribute no matches); faults aimed at each directory the expansion has to read (strace -P)
+    gfs = [E("s", "dir"), E("d", "dir")]
+    for dn in ("d1", "d2", "d3"):
+        gfs.append(E("s/" + dn, "dir"))
+        for fn in ("a%s.txt" % dn, "b%s.txt" % dn):          # distinct base names: the matches map to distinct destinations
+            gfs.append(E("s/%s/%s" % (dn, fn), "file", "G-%s-%s" % (dn, fn)))
+    gsrc = ["s/%s/a%s.txt" % (dn, dn) for dn in ("d1", "d2", "d3")]
+    variants["GLOB"] = SC("glob-expansion", gfs, gsrc, "d", r=False, glob=["s/d*/a*.txt"], extra=["--fsync"], cls="faults")
+    for drv in ("parfile", "parblock"):
+        for obj in ("s", "s/d1", "s/d2", "s/d3", "s/d2/ad2.txt"):
+            for sysc in ("openat", "getdents64", "statx", "newfstatat"):
+                for when in (1, 2):
+                    jobs.append((drv, 2, sysc, ERRNOS[sysc][0], when, "VAR:GLOB@" + obj))
     # third: one single-block file, every finalisation call of one kind failing, repeated: whichever thread ends up
     # holding the last reference to the handle has to report the failure
     sc_one = scenario_one()
@@ -160,8 +174,8 @@ def run(ctx):
     def one(j):
         drv, w, sysc, err, when, plan = j
         rid = "c04-%s-w%d-%s-%s-%d%s" % (drv, w, sysc, err, when, "-" + plan.replace("=", "") if plan else "")
-        the_sc = sc_own if plan == "OWN" else (sc_one if plan and plan.startswith("ONE") else (variants[plan[4:]] if plan and plan.startswith("VAR:") else sc))
-        only = plan[4:] if plan and plan.startswith("OBJ:") else None
+        the_sc = sc_own if plan == "OWN" else (sc_one if plan and plan.startswith("ONE") else (variants[plan[4:].split("@")[0]] if plan and plan.startswith("VAR:") else sc))
+        only = plan[4:] if plan and plan.startswith("OBJ:") else (plan.split("@", 1)[1] if plan and plan.startswith("VAR:") and "@" in plan else None)
         env = {"XCP_VERIF_PLAN": plan} if plan and plan.startswith("cfr") else ({"XCP_VERIF_PLAN": "clone=emulate"} if plan == "VAR:CLONE" else ({"XCP_VERIF_PLAN": "cfr.errno=18"} if plan == "VAR:USPACE" else None))
         inj_spec = "%s:error=%s:when=%d" % (sysc, err, when) if when > 0 else "%s:error=%s" % (sysc, err)
         rid = rid.replace("/", "_").replace(":", "")
